@@ -19,13 +19,21 @@ HostOf(e, x) == LET hs == {i \in 1..Len(e.obs.host) : e.obs.host[i][1] = x}
                 IN  IF hs = {} THEN <<FALSE, <<>>>> ELSE <<TRUE, e.obs.host[CHOOSE i \in hs : TRUE][2]>>
 HasLF(b) == \E i \in 1..Len(b) : b[i] = LF
 
-\* input class of a rejected read at position (li, ii) of `lines` whose expected item is `it` ("" = no special class)
+\* input class of a rejected read at position (li, ii) of `lines` whose expected item is `it` ("" = no special class).
+\* A string / line of the maximal length read EARLIER IN THE SAME SESSION (a session starts at the beginning of the file)
+\* leaves the implementation at an unknown position; an item read in between may match by coincidence.
+Str255(it) == it.k = "s" /\ Len(it.b) = MaxLen
+StrBefore(lines, li, ii) ==
+    \/ \E m \in 1..(IF li - 1 <= Len(lines) THEN li - 1 ELSE Len(lines)) :
+          lines[m].k = "w" /\ \E j \in 1..Len(lines[m].items) : Str255(lines[m].items[j])
+    \/ (li <= Len(lines) /\ lines[li].k = "w" /\ \E j \in 1..ii : Str255(lines[li].items[j]))
+LineBefore(lines, li) ==
+    \E m \in 1..(IF li - 1 <= Len(lines) THEN li - 1 ELSE Len(lines)) : lines[m].k = "p" /\ Len(lines[m].s) = MaxLen
 ClassAt(lines, li, ii, it) ==
-    LET pv == Previous(lines, li, ii)
-    IN  IF pv[1] /\ pv[2].k = "s" /\ Len(pv[2].b) = MaxLen THEN "_after_255_char_string"
-        ELSE IF pv[1] /\ pv[2].k = "l" /\ Len(pv[2].b) = MaxLen THEN "_after_255_char_line"
-        ELSE IF it.k = "s" /\ HasLF(it.b) THEN "_string_contains_linefeed"
-        ELSE ""
+    IF StrBefore(lines, li, ii) THEN "_after_255_char_string"
+    ELSE IF LineBefore(lines, li) THEN "_after_255_char_line"
+    ELSE IF it.k = "s" /\ HasLF(it.b) THEN "_string_contains_linefeed"
+    ELSE ""
 NoItem == [k |-> "none"]
 
 \* verdict on the values an INPUT # returned: index of the first variable that is wrong, 0 if none
@@ -59,7 +67,9 @@ Judge(e, s0, s1) ==
             THEN <<"line_input_differs_from_printed_line" \o ClassAt(lines, li, ii, NoItem), TRUE>>
         ELSE IF mine /\ s1.fil[n].mode = "I" /\ ~s1.fil[n].bad /\ o[n].eof # Eof(s1, n)
             THEN <<"eof_not_exactly_after_last_item" \o ClassAt(lines, s1.fil[n].li, s1.fil[n].ii, NoItem), TRUE>>
-        ELSE IF mine /\ s1.disk[s1.fil[n].name].known /\ o[n].lof # Lof(s1, n)
+        ELSE IF mine /\ HostOf(e, s1.fil[n].name)[1] /\ o[n].lof # Len(HostOf(e, s1.fil[n].name)[2])
+            THEN <<"lof_differs_from_bytes_in_host_file", FALSE>>
+        ELSE IF mine /\ ~HostOf(e, s1.fil[n].name)[1] /\ s1.disk[s1.fil[n].name].known /\ o[n].lof # Lof(s1, n)
             THEN <<"lof_differs_from_bytes_in_file", FALSE>>
         ELSE IF \E x \in Names : /\ HostOf(e, x)[1] /\ s1.disk[x].known
                                  /\ LET fb == FileBytes(s1.disk[x].lines)
@@ -81,8 +91,9 @@ Resync(e, s1, v) ==
                 THEN LET h == HostOf(e, x)[2]  fb == FileBytes(d.lines)
                      IN  IF h = fb THEN [d EXCEPT !.extra = 0]
                          ELSE IF h = fb \o <<EOFCHAR>> THEN [d EXCEPT !.extra = 1]
-                         ELSE [d EXCEPT !.known = FALSE]
-                ELSE IF v[1] = "lof_differs_from_bytes_in_file" /\ holder # {} THEN [d EXCEPT !.known = FALSE]
+                         ELSE [d EXCEPT !.extra = Len(h) - d.len]      \* reads are still judged against the items written
+                ELSE IF v[1] = "lof_differs_from_bytes_in_file" /\ holder # {}
+                     THEN [d EXCEPT !.extra = o[CHOOSE k \in holder : TRUE].lof - d.len]
                 ELSE d
     IN  [disk |-> [x \in Names |-> fixDisk(x)],
          fil  |-> [k \in FileNums |-> IF IsOpen(s1, k) /\ k = e.n /\ v[2] THEN [s1.fil[k] EXCEPT !.bad = TRUE] ELSE s1.fil[k]]]
